@@ -1,5 +1,8 @@
 use crate::ast::{BinaryOp, Commented, Expr, RecordEntry, RecordKey, SpannedExpr};
-use crate::ast_to_source::{expr_to_source, format_record_key, needs_parens_in_binop};
+use crate::ast_to_source::{
+    expr_to_source, format_record_key, lambda_body_needs_parens, needs_parens_in_binop,
+    needs_parens_in_postfix,
+};
 use crate::values::LambdaArg;
 use std::cell::RefCell;
 use std::collections::HashMap;
@@ -85,12 +88,17 @@ fn format_single_line(expr: &SpannedExpr) -> String {
             } else {
                 format!("({})", args_str.join(", "))
             };
-            format!("{} => {}", args_part, format_single_line(body))
+            if lambda_body_needs_parens(body) {
+                format!("{} => ({})", args_part, format_single_line(body))
+            } else {
+                format!("{} => {}", args_part, format_single_line(body))
+            }
         }
         Expr::Call { func, args } => {
-            let func_str = match &func.node {
-                Expr::Lambda { .. } => format!("({})", format_single_line(func)),
-                _ => format_single_line(func),
+            let func_str = if needs_parens_in_postfix(func) {
+                format!("({})", format_single_line(func))
+            } else {
+                format_single_line(func)
             };
             let args_str: Vec<String> = args.iter().map(format_single_line).collect();
             format!("{}({})", func_str, args_str.join(", "))
@@ -312,8 +320,17 @@ fn format_lambda(args: &[LambdaArg], body: &SpannedExpr, max_cols: usize, indent
         return format!("{} {}", args_part, body_formatted);
     }
 
+    // A body with `via`, `into` or `where` outside of parentheses keeps its parentheses
+    let wrap_body = |formatted: String| {
+        if lambda_body_needs_parens(body) {
+            format!("({})", formatted)
+        } else {
+            formatted
+        }
+    };
+
     // Try single-line first for other body types
-    let single_line_body = format_expr_impl(body, max_cols, indent);
+    let single_line_body = wrap_body(format_expr_impl(body, max_cols, indent));
     let single_line = format!("{} {}", args_part, single_line_body);
 
     // Check only if it's actually single-line and fits
@@ -327,7 +344,7 @@ fn format_lambda(args: &[LambdaArg], body: &SpannedExpr, max_cols: usize, indent
         "{}\n{}{}",
         args_part,
         make_indent(body_indent),
-        format_expr_impl(body, max_cols, body_indent)
+        wrap_body(format_expr_impl(body, max_cols, body_indent))
     )
 }
 
@@ -421,9 +438,10 @@ fn format_call_multiline(
     max_cols: usize,
     indent: usize,
 ) -> String {
-    let func_str = match &func.node {
-        Expr::Lambda { .. } => format!("({})", format_expr_impl(func, max_cols, indent)),
-        _ => format_expr_impl(func, max_cols, indent),
+    let func_str = if needs_parens_in_postfix(func) {
+        format!("({})", format_expr_impl(func, max_cols, indent))
+    } else {
+        format_expr_impl(func, max_cols, indent)
     };
 
     if args.is_empty() {
